@@ -71,6 +71,9 @@ CLAIMS = {
     "C15": ("other", "panic-discipline inventories over type-checked MIR: (R7a) Result::unwrap/expect classified by error type and source callee; (R7b) every panic-capable construct (bounds/division asserts, slice/str indexing, split_at, copy_from_slice, macro panics, Option::unwrap) in the frozen parse layer and the apply-side functions where triage showed wire content arriving, discharged by dominance patterns (length guard, divisor guard, constant index, find()-derived str index) or a reviewed row; (R6d) must-validate-before-trust: a validating Column::load of the same bytes and type dominates every trusting streaming decoder outside hexane",
             "Every one of the enumerated sites is discharged by a local pattern, by a reviewed row (tables/unwrap_result.tsv, tables/panic_sites.tsv, one reason each) or is a listed known finding with a concrete input; a new unwrap of an error channel, a new unguarded index/split in the parse layer, or a new trusting decoder over unvalidated wire bytes is reported.",
             "Level 'other': an inventory with reviewed rows, not a proof of panic-freedom. Not decided: panics in the op-set / index machinery beyond the listed functions, debug-only overflow asserts, hangs and allocation (C17). Fired on the pinned tree: 11 defects repaired by fix: commits (import_obj hex, Cursor::from_str, OpId counters, change-metadata columns, bundle columns, value length, actor indexes x2, out-of-order deps, unbundle unwrap, duplicate ops); 10 apply-side panic sites reachable with well-formed but semantically invalid changes are known findings (BatchApply has no error channel; not a small repair).", "DESIGN.md §3 C15"),
+    "C37": ("other", "API-layer panic discipline over type-checked MIR: Result::unwrap/expect inventory (R7a); inventory of macro panics, Option::unwrap, indexing and panicking sequence-API calls with dominance patterns — must-pass-through ensure_transaction_open before self.transaction.unwrap(), typestate (only self-consuming methods empty a transaction handle's inner slot), control dependence of hydrate's sequence edits on a len() comparison (R7d); provenance of caller-supplied ExId parameters into exid_to_obj/exid_to_opid only (R7e)",
+            "Every enumerated site in automerge.rs, autocommit.rs, transaction/*, hydrate*, autoserde, patches, marks and automerge-c's unwraps is discharged by a pattern, reviewed (tables/api_panic_sites.tsv, tables/unwrap_result.tsv) or reported; a new unwrap of AutomergeError, a mutating AutoCommit method that skips ensure_transaction_open, a &mut-self method that empties a transaction handle, an unguarded sequence edit in hydrate or direct use of ExId fields is reported.",
+            "Level 'other': inventory with reviewed rows. Not decided: panics in the op-set queries, sequence tree and text_diff reached with valid ids. Fired on the pinned tree: hydrate::Value::apply_patches hit todo!() on library-produced Mark patches (fix: c9d192d6a) and sequence-tree asserts on stale / out-of-range patches (fix: 9c5d779aa); OpId counters above u32::MAX from caller-supplied ids (fix: 179c483cf, decided under C30/C15).", "DESIGN.md §3 C37"),
     "C03": ("other", "the error-after-mutation analysis of C06 restricted to the editing calls C03 lists, plus agreement of the op set's Action->ObjType table with the make-actions the encoder writes",
             "For put, put_object, insert, insert_object, delete, increment, splice, splice_text, mark, unmark, split_block, join_block: every (mutation, later error) pair in the functions they reach is discharged, reviewed or a known finding; and every object kind put_object can create is one the op set registers.",
             "Decides only the last sentence of C03 (an invalid call changes nothing) and the object-registration clause; the sequential effect itself is runtime-valued. Known finding: ObjType::Table objects are never registered (put_object returns an unusable id).", "DESIGN.md §3 C03"),
